@@ -6,6 +6,7 @@ import Driver.Lex
 import Driver.Format
 import Driver.Sort
 import Driver.Exclude
+import Driver.Qualify
 open Lean
 
 def dispatch (j : Json) : Json :=
@@ -19,6 +20,8 @@ def dispatch (j : Json) : Json :=
   | "sort.plan" => Driver.handleSortPlan j
   | "exclude" => Driver.handleExclude j
   | "glob" => Driver.handleGlob j
+  | "qualify" => Driver.handleQualify j
+  | "scope" => Driver.handleScope j
   | "h1" => Json.mkObj [("h", Atlas.Base.h1 (Driver.unhex (Driver.str j "hex")))]
   | op => Json.mkObj [("err", s!"unknown-op:{op}")]
 
